@@ -382,10 +382,12 @@ void misc_phase(World& w, const Task& t, Agg& a)
         int64_t A = mk("mvA", 0), B = mk("mvB", 0), C = mk("mvC", 0), a1 = mk("mv1", A), a2 = mk("mv2", A);
         (void)a2;
         int step = 0;
+        int moved = 0;
         for (int64_t subject : {a1, C})
-            for (auto target : std::vector<std::pair<int64_t, int>>{{0, -1}, {0, 0}, {A, -1}, {A, 0}, {B, -1}, {A, 1}, {0, 1}})
-                for (bool persisted : {false, true})
-                    for (bool exported : {false, true})
+            for (bool persisted : {false, true})
+                for (bool exported : {false, true})
+                    // consecutive targets differ, so that every step really is a move
+                    for (auto target : std::vector<std::pair<int64_t, int>>{{0, -1}, {0, 0}, {A, -1}, {A, 0}, {B, -1}, {A, 1}, {0, 1}})
                     {
                         ++step;
                         a.count("evaluations");
@@ -398,6 +400,8 @@ void misc_phase(World& w, const Task& t, Agg& a)
                                 if (x != subject) sibs.push_back(x);
                             int64_t next = target.second < 0 || sibs.empty() ? 0 : sibs[(size_t)target.second % sibs.size()];
                             v2::playlist_row row{subject, "mv-moved" + std::to_string(step), target.first, persisted, next, tpt{seconds{1700000000 + step}}, exported};
+                            auto before = pl.get(subject);
+                            if (before && (before->parent_list_id != row.parent_list_id || before->next_list_id != row.next_list_id)) ++moved;
                             pl.update(row);
                             auto got = pl.get(subject);
                             std::string diff;
@@ -420,6 +424,8 @@ void misc_phase(World& w, const Task& t, Agg& a)
                             a.violation("playlist_row|update_move|rejected", "[" + sn + "] playlist update() moving a row threw: " + exname(e) + ": " + e.what(), cid);
                         }
                     }
+        a.count("playlist_updates_that_moved", moved);
+        if (moved < 40) a.violation("harness|playlist_move|vacuous", "[" + sn + "] only " + std::to_string(moved) + " of the playlist updates changed the position", sn + "|P|playlist_move");
     }
     // ---- playlist entity rows
     int64_t t1 = tt.add(base_row(0)), t2 = tt.add(base_row(1));
